@@ -166,7 +166,6 @@ Qed.
 Lemma parse_num_radix_finite radix s v : parse_num_radix true radix s = Ok v -> f_is_finite v = true.
 Proof.
   unfold parse_num_radix. destruct s as [|c r]; [discriminate|].
-  destruct (split_bytes _ _) as [[a b]|]; [|discriminate].
   intros H. apply obind_ok_inv in H. destruct H as [n [_ H]].
   apply obind_ok_inv in H. destruct H as [x [_ H]].
   now apply check_finite_overflow_finite in H.
